@@ -143,7 +143,8 @@ Section CloseRule.
         = (if dtrunc_int (b_int b - b_res b) >? 0 then dtrunc_int (b_int b - b_res b) else 0).
   Proof.
     intros H Eb Ep. destruct Hwf as (Hnd & Hres & Hauc & _). unfold auc_close in H. rewrite Eb in H.
-    destruct (b_liq b) eqn:Eq; cbn [negb] in H; [|discriminate]. rewrite Ep in H.
+    destruct (b_liq b) eqn:Eq; cbn [negb orb] in H; [|discriminate].
+    destruct (existsb (Z.eqb bid) (v1 st)) eqn:Ev1; [discriminate|]. rewrite Ep in H.
     destruct (zget (c_pools cfg) (pr_out_pool pr)) as [pout|] eqn:Epo; [|discriminate].
     cbv zeta in H. pose proof (pool_in_mods _ _ _ Epo) as Hin.
     destruct (send (bnk st) AUCTION owner (pr_in pr) back) as [b0| |] eqn:E0; cbn [obind] in H; try discriminate.
